@@ -68,6 +68,7 @@ theorem accept_inv {x : Option Nat} {w : World} (h : WInvX x w) (p : Nat) (ppr :
       rw [hc] at hc'; injection hc' with hc'; subst hc'
       exact absurd a4.symm hp2.2
   · intro cr' c' hcq'; exact h.connReqLive p ppr cr' c' hpp hcq'
+  · intro cr' hcq'; exact h.connReqRef p ppr cr' hpp hcq'
   · exact h.bufOk p ppr hpp
 
 /-! ### keepalive -/
@@ -113,6 +114,7 @@ theorem loopOn_inv {x : Option Nat} {w : World} (h : WInvX x w) (p : Nat) (ppr :
     rw [hown, hpp] at a5; injection a5 with a5; subst a5
     exact a6
   · intro cr' c' hcq'; exact h.connReqLive p ppr cr' c' hpp hcq'
+  · intro cr' hcq'; exact h.connReqRef p ppr cr' hpp hcq'
   · exact h.bufOk p ppr hpp
 
 def pingArmW (w : World) (p : Nat) (ppr : Proto) (due : Nat) (log' : List Obs) : World :=
@@ -159,6 +161,7 @@ theorem pingArm_inv {x : Option Nat} {w : World} (h : WInvX x w) (p : Nat) (ppr 
     rw [hown, hpp] at a5; injection a5 with a5; subst a5
     exact a6
   · intro cr' c' hcq'; exact h.connReqLive p ppr cr' c' hpp hcq'
+  · intro cr' hcq'; exact h.connReqRef p ppr cr' hpp hcq'
   · exact h.bufOk p ppr hpp
 
 def loopSchedW (w : World) (p : Nat) (ppr : Proto) (l : Loop) (due : Nat) : World :=
@@ -209,6 +212,7 @@ theorem loopSched_inv {x : Option Nat} {w : World} (h : WInvX x w) (p : Nat) (pp
     rw [hown, hpp] at a5; injection a5 with a5; subst a5
     exact a6
   · intro cr' c' hcq'; exact h.connReqLive p ppr cr' c' hpp hcq'
+  · intro cr' hcq'; exact h.connReqRef p ppr cr' hpp hcq'
   · exact h.bufOk p ppr hpp
 
 def loopKillW (w : World) (p : Nat) (ppr : Proto) (t : Nat) (tm : Timer) (st : TStatus) (pt : Option Loop) (now' : Nat) : World :=
@@ -263,6 +267,7 @@ theorem loopKill_inv {x : Option Nat} {w : World} (h : WInvX x w) (p : Nat) (ppr
     rw [hown, hpp] at a5; injection a5 with a5; subst a5
     exact a6
   · intro cr' c' hcq'; exact h.connReqLive p ppr cr' c' hpp hcq'
+  · intro cr' hcq'; exact h.connReqRef p ppr cr' hpp hcq'
   · exact h.bufOk p ppr hpp
 
 def loopDropW (w : World) (p : Nat) (ppr : Proto) : World :=
@@ -302,6 +307,7 @@ theorem loopDrop_inv {x : Option Nat} {w : World} (h : WInvX x w) (p : Nat) (ppr
     rw [hown, hpp] at a5; injection a5 with a5; subst a5
     exact a6
   · intro cr' c' hcq'; exact h.connReqLive p ppr cr' c' hpp hcq'
+  · intro cr' hcq'; exact h.connReqRef p ppr cr' hpp hcq'
   · exact h.bufOk p ppr hpp
 
 def connDoneW (w : World) (p : Nat) (ppr : Proto) (d : Nat) (o : Obs) : World :=
@@ -358,6 +364,7 @@ theorem connDone_inv {x : Option Nat} {w : World} (h : WInvX x w) (p : Nat) (ppr
       · exact Or.inl a6
       · exact absurd a6 hs
     · intro cr' c' hcq'; cases hcq'
+    · intro cr' hcq'; cases hcq'
     · exact h.bufOk p ppr hpp
   have hd1 := (h.connReq cr c d hc hd hnf)
   have h2 := fireD_inv h1 (d := d) hd1.1 hd1.2
